@@ -18,6 +18,7 @@
 /* ------------------------------------------------------------------ ghost state */
 int           g_grp;    /* modelled group, 0 <= g_grp < MAXGROUP */
 atom_group_t *g_gp;     /* the harness-built group record (always a valid object) */
+int           g_present; /* atom_group_list[g_grp] == g_gp (else NULL: group never initialised) */
 uint32        g_b;      /* modelled bucket */
 uint32        g_b2;     /* ghost "other" bucket */
 atom_info_t  *g_b2head; /* its head on entry */
@@ -46,59 +47,75 @@ atom_info_t *g_gn;     /* HAregister_atom: an arbitrary node already registered 
 #define HS_OK(h) ((h) != 0 && ((h) & ((h)-1)) == 0 && (h) <= IDX_LIMIT)
 
 #define GP (atom_group_list[g_grp])
-#define LIVE (GP != NULL && GP->count > 0)
-#define HS (GP->hash_size)
+/* the group exists and is initialised (count > 0); g_present says whether the table slot holds g_gp */
+#define LIVE (g_present != 0 && g_gp->count > 0)
+#define HS (g_gp->hash_size)
 #define LOC(a) (SPEC_IDX(a) & (HS - 1))
 #define HAS_B2 (g_b2 < HS && g_b2 != g_b)
-/* the (at most three) nodes of the modelled bucket, read from the REAL structure */
-#define H0 (GP->atom_list[g_b])
-#define H1 (H0 != NULL ? H0->next : NULL)
-#define H2 (H1 != NULL ? H1->next : NULL)
-#define H3 (H2 != NULL ? H2->next : NULL)
-#define CHAINLEN (H0 == NULL ? 0 : H1 == NULL ? 1 : H2 == NULL ? 2 : 3)
-/* representation invariant of a registered node: id carries its group, a counter below nextid,
-   and sits in the bucket its id hashes to */
-#define ID_WF(i) (SPEC_GRP(i) == g_grp && SPEC_IDX(i) < GP->nextid && LOC(i) == g_b)
-#define NODE_WF(n) ((n) == NULL || ID_WF((n)->id))
-#define DISTINCT(p, q) ((p) == NULL || (q) == NULL || ((p) != (q) && (p)->id != (q)->id))
+#define HEAD (g_gp->atom_list[g_b])
 
-#define GROUP_WF                                                                                     \
-    (g_grp >= 0 && g_grp < (int)MAXGROUP && (GP == NULL || GP == g_gp) &&                            \
-     (!LIVE || (HS_OK(HS) && GP->atom_list != NULL && g_b < HS && H3 == NULL && NODE_WF(H0) &&       \
-                NODE_WF(H1) && NODE_WF(H2) && DISTINCT(H0, H1) && DISTINCT(H0, H2) &&                \
-                DISTINCT(H1, H2) && GP->atoms >= (unsigned)CHAINLEN && GP->nextid <= IDX_LIMIT)))
+/* All shape predicates take the chain of the modelled bucket as (n, a, b, c): "the chain consists
+   exactly of the first n of the nodes a, b, c" (n <= 3 is the bound of the bounded obligations).
+   On entry that is (g_len, g_n0, g_n1, g_n2); after a removal / insertion it is the shifted tuple. */
+#define CHAIN_IS(n, a, b, c)                                                                         \
+    ((n) == 0   ? HEAD == NULL                                                                       \
+     : (n) == 1 ? (HEAD == (a) && (a)->next == NULL)                                                 \
+     : (n) == 2 ? (HEAD == (a) && (a)->next == (b) && (b)->next == NULL)                             \
+                : (HEAD == (a) && (a)->next == (b) && (b)->next == (c) && (c)->next == NULL))
+/* representation invariant of a registered node: the id carries its group, a counter below
+   nextid, and the node sits in the bucket its id hashes to; ids in a chain are pairwise distinct */
+#define ID_WF(i) (SPEC_GRP(i) == g_grp && SPEC_IDX(i) < g_gp->nextid && LOC(i) == g_b)
+#define NODES_WF(n, a, b, c)                                                                         \
+    (((n) < 1 || ID_WF((a)->id)) && ((n) < 2 || (ID_WF((b)->id) && (b) != (a) && (b)->id != (a)->id)) && \
+     ((n) < 3 || (ID_WF((c)->id) && (c) != (a) && (c) != (b) && (c)->id != (a)->id && (c)->id != (b)->id)))
+#define GROUP_WF(n, a, b, c)                                                                         \
+    (g_grp >= 0 && g_grp < (int)MAXGROUP && g_gp != NULL && GP == (g_present ? g_gp : (atom_group_t *)NULL) && (n) >= 0 && (n) <= 3 &&     \
+     (!LIVE || (HS_OK(HS) && g_gp->atom_list != NULL && g_b < HS && CHAIN_IS(n, a, b, c) &&            \
+                NODES_WF(n, a, b, c) && g_gp->atoms >= (unsigned)(n) && g_gp->nextid <= IDX_LIMIT)))
 
-/* uncached lookup, as a specification over the REAL structure: the object registered under a
-   (the call is centred: a's group is g_grp and a hashes to bucket g_b) */
-#define IN_CHAIN(a, o)                                                                               \
-    ((H0 != NULL && H0->id == (a) && (void *)H0->obj_ptr == (o)) ||                                  \
-     (H1 != NULL && H1->id == (a) && (void *)H1->obj_ptr == (o)) ||                                  \
-     (H2 != NULL && H2->id == (a) && (void *)H2->obj_ptr == (o)))
-#define LOOKUP_NODE(a)                                                                               \
-    (!(SPEC_VALIDGRP(a) && LIVE)      ? (atom_info_t *)NULL                                          \
-     : (H0 != NULL && H0->id == (a)) ? H0                                                            \
-     : (H1 != NULL && H1->id == (a)) ? H1                                                            \
-     : (H2 != NULL && H2->id == (a)) ? H2                                                            \
-                                      : (atom_info_t *)NULL)
-#define LOOKUP(a) (LOOKUP_NODE(a) == NULL ? (void *)NULL : (void *)LOOKUP_NODE(a)->obj_ptr)
+/* uncached lookup as a specification: the node / object registered under id i (the call is
+   centred: i's group is g_grp and i hashes to bucket g_b) */
+#define IN_CHAIN(n, a, b, c, i, o)                                                                   \
+    (((n) > 0 && (a)->id == (i) && (void *)(a)->obj_ptr == (o)) ||                                   \
+     ((n) > 1 && (b)->id == (i) && (void *)(b)->obj_ptr == (o)) ||                                   \
+     ((n) > 2 && (c)->id == (i) && (void *)(c)->obj_ptr == (o)))
+#define LOOKUP_NODE(n, a, b, c, i)                                                                   \
+    (!(SPEC_VALIDGRP(i) && LIVE)    ? (atom_info_t *)NULL                                            \
+     : ((n) > 0 && (a)->id == (i)) ? (a)                                                             \
+     : ((n) > 1 && (b)->id == (i)) ? (b)                                                             \
+     : ((n) > 2 && (c)->id == (i)) ? (c)                                                             \
+                                    : (atom_info_t *)NULL)
+#define LOOKUP(n, a, b, c, i)                                                                        \
+    (!(SPEC_VALIDGRP(i) && LIVE)    ? (void *)NULL                                                   \
+     : ((n) > 0 && (a)->id == (i)) ? (void *)(a)->obj_ptr                                            \
+     : ((n) > 1 && (b)->id == (i)) ? (void *)(b)->obj_ptr                                            \
+     : ((n) > 2 && (c)->id == (i)) ? (void *)(c)->obj_ptr                                            \
+                                    : (void *)NULL)
 /* the call is about atom a: the model is centred on it */
 #define CENTRED(a) (!SPEC_VALIDGRP(a) || (SPEC_GRP(a) == g_grp && (!LIVE || LOC(a) == g_b)))
 
 /* cache coherence: an entry is (-1,NULL), or a registered id with the object registered under it.
    "registered" is modelled exactly for ids of the modelled bucket; ids of other groups/buckets
    cannot equal the probed atom and need no model beyond "valid group, counter below nextid" */
-#define SLOT_WF(u)                                                                                   \
+#define SLOT_WF(u, n, a, b, c)                                                                       \
     (atom_id_cache[u] == -1                                                                          \
          ? atom_obj_cache[u] == NULL                                                                 \
          : (SPEC_VALIDGRP(atom_id_cache[u]) &&                                                       \
             (SPEC_GRP(atom_id_cache[u]) != g_grp ||                                                  \
-             (LIVE && SPEC_IDX(atom_id_cache[u]) < GP->nextid &&                                     \
-              (LOC(atom_id_cache[u]) != g_b || IN_CHAIN(atom_id_cache[u], atom_obj_cache[u]))))))
+             (LIVE && SPEC_IDX(atom_id_cache[u]) < g_gp->nextid &&                                     \
+              (LOC(atom_id_cache[u]) != g_b || IN_CHAIN(n, a, b, c, atom_id_cache[u], atom_obj_cache[u]))))))
 #define NODUP(u, v) (atom_id_cache[u] != atom_id_cache[v] || atom_id_cache[u] == -1)
-#define CACHE_WF                                                                                     \
-    (SLOT_WF(0) && SLOT_WF(1) && SLOT_WF(2) && SLOT_WF(3) && NODUP(0, 1) && NODUP(0, 2) &&           \
-     NODUP(0, 3) && NODUP(1, 2) && NODUP(1, 3) && NODUP(2, 3))
-#define ATOMS_WF (GROUP_WF && CACHE_WF)
+#define CACHE_WF(n, a, b, c)                                                                         \
+    (SLOT_WF(0, n, a, b, c) && SLOT_WF(1, n, a, b, c) && SLOT_WF(2, n, a, b, c) && SLOT_WF(3, n, a, b, c) && \
+     NODUP(0, 1) && NODUP(0, 2) && NODUP(0, 3) && NODUP(1, 2) && NODUP(1, 3) && NODUP(2, 3))
+#define ATOMS_WF(n, a, b, c) (GROUP_WF(n, a, b, c) && CACHE_WF(n, a, b, c))
+/* the entry chain */
+#define E_CHAIN g_len, g_n0, g_n1, g_n2
+#define WF_(t) ATOMS_WF(t)
+#define LOOKUP_NODE_(t, i) LOOKUP_NODE(t, i)
+#define LOOKUP_(t, i) LOOKUP(t, i)
+#define CHAIN_IS_(t) CHAIN_IS(t)
+#define GHOSTS_OK (g_n0 != NULL && g_n1 != NULL && g_n2 != NULL && g_gp != NULL && g_gp->atom_list != NULL && g_b < g_gp->hash_size)
 
 /* entry snapshots (tie the ghosts to the real state; used instead of __CPROVER_old so that the
    same text is evaluated by the native replay) */
@@ -119,17 +136,12 @@ atom_info_t *g_gn;     /* HAregister_atom: an arbitrary node already registered 
 #define SNAP_ID(u) ((u) == 0 ? g_cid0 : (u) == 1 ? g_cid1 : (u) == 2 ? g_cid2 : g_cid3)
 #define SNAP_OB(u) ((u) == 0 ? g_cob0 : (u) == 1 ? g_cob1 : (u) == 2 ? g_cob2 : g_cob3)
 
-/* chain of bucket g_b consists exactly of the first n of the nodes a,b,c */
-#define CHAIN_IS(n, a, b, c)                                                                         \
-    ((n) == 0   ? H0 == NULL                                                                         \
-     : (n) == 1 ? (H0 == (a) && (a)->next == NULL)                                                   \
-     : (n) == 2 ? (H0 == (a) && (a)->next == (b) && (b)->next == NULL)                               \
-                : (H0 == (a) && (a)->next == (b) && (b)->next == (c) && (c)->next == NULL))
 #define NODE_IS(n, i, o) ((n)->id == (i) && (void *)(n)->obj_ptr == (o))
-#define CHAIN_SNAP                                                                                   \
-    (g_len >= 0 && g_len <= 3 && g_n0 != NULL && g_n1 != NULL && g_n2 != NULL &&                     \
-     (!LIVE || (CHAIN_IS(g_len, g_n0, g_n1, g_n2) && (g_len < 1 || NODE_IS(g_n0, g_id0, g_ob0)) &&   \
-                (g_len < 2 || NODE_IS(g_n1, g_id1, g_ob1)) && (g_len < 3 || NODE_IS(g_n2, g_id2, g_ob2)))))
+/* ids and objects of the entry chain (a released node keeps its stale id, so the entry values
+   are kept in ghosts) */
+#define NODES_SNAP                                                                                   \
+    ((g_len < 1 || NODE_IS(g_n0, g_id0, g_ob0)) && (g_len < 2 || NODE_IS(g_n1, g_id1, g_ob1)) &&     \
+     (g_len < 3 || NODE_IS(g_n2, g_id2, g_ob2)))
 /* position of atom a in the entry chain, -1 = not registered (stale, foreign, never issued) */
 #define SPEC_K(a)                                                                                    \
     (!(SPEC_VALIDGRP(a) && LIVE)     ? -1                                                            \
@@ -139,7 +151,7 @@ atom_info_t *g_gn;     /* HAregister_atom: an arbitrary node already registered 
                                    : -1)
 #define SPEC_OBJ(a) (SPEC_K(a) == 0 ? g_ob0 : SPEC_K(a) == 1 ? g_ob1 : SPEC_K(a) == 2 ? g_ob2 : (void *)NULL)
 #define FREELIST_SAME (atom_free_list == g_fl && (g_fl == NULL || g_fl->next == g_flnext))
-#define B2_SAME (!LIVE || !HAS_B2 || GP->atom_list[g_b2] == g_b2head)
+#define B2_SAME (!LIVE || !HAS_B2 || g_gp->atom_list[g_b2] == g_b2head)
 
 /* ================================================================== contracts */
 
@@ -153,34 +165,34 @@ group_t HAatom_group(atom_t atm)
 /* --- uncached lookup: the node registered under atm, or NULL; on success the pair goes to the
        last cache slot.  Only called by HAatom_object after all four slots missed. ------------- */
 static atom_info_t *HAIfind_atom(atom_t atm)
-    __CPROVER_requires(ATOMS_WF && CENTRED(atm) && CACHE_SNAP)
+    __CPROVER_requires(GHOSTS_OK && WF_(E_CHAIN) && CENTRED(atm) && CACHE_SNAP)
     __CPROVER_requires(NOT_CACHED(atm))
     __CPROVER_assigns(atom_id_cache[ATOM_CACHE_SIZE - 1], atom_obj_cache[ATOM_CACHE_SIZE - 1])
-    __CPROVER_ensures(__CPROVER_return_value == LOOKUP_NODE(atm))
+    __CPROVER_ensures(__CPROVER_return_value == LOOKUP_NODE_(E_CHAIN, atm))
     /* never issued / wrong kind / stale: NULL and nothing touched */
     __CPROVER_ensures(__CPROVER_return_value == NULL ==> CACHE_SAME)
     __CPROVER_ensures(__CPROVER_return_value != NULL ==>
-                      (atom_id_cache[3] == atm && atom_obj_cache[3] == (void *)__CPROVER_return_value->obj_ptr))
-    __CPROVER_ensures(ATOMS_WF);
+                      (atom_id_cache[3] == atm && atom_obj_cache[3] == LOOKUP_(E_CHAIN, atm)))
+    __CPROVER_ensures(WF_(E_CHAIN));
 
 /* --- cached lookup == uncached lookup (cache coherence) -------------------------------------- */
 void *HAatom_object(atom_t atm)
-    __CPROVER_requires(ATOMS_WF && CENTRED(atm) && CACHE_SNAP)
+    __CPROVER_requires(GHOSTS_OK && WF_(E_CHAIN) && CENTRED(atm) && CACHE_SNAP)
     __CPROVER_requires(g_u >= 0 && g_u < ATOM_CACHE_SIZE)
     __CPROVER_assigns(__CPROVER_object_whole(atom_id_cache), __CPROVER_object_whole(atom_obj_cache))
-    __CPROVER_ensures(__CPROVER_return_value == LOOKUP(atm))
+    __CPROVER_ensures(__CPROVER_return_value == LOOKUP_(E_CHAIN, atm))
     /* the cache stays coherent and duplicate free */
-    __CPROVER_ensures(ATOMS_WF)
+    __CPROVER_ensures(WF_(E_CHAIN))
     /* and only ever holds pairs it held before, or the pair just looked up */
-    __CPROVER_ensures(PAIR_IS_OLD(g_u) || (LOOKUP_NODE(atm) != NULL && atom_id_cache[g_u] == atm &&
-                                           atom_obj_cache[g_u] == LOOKUP(atm)))
+    __CPROVER_ensures(PAIR_IS_OLD(g_u) || (LOOKUP_NODE_(E_CHAIN, atm) != NULL && atom_id_cache[g_u] == atm &&
+                                           atom_obj_cache[g_u] == LOOKUP_(E_CHAIN, atm)))
     /* a rejected id (never issued, wrong kind, stale) leaves the cache as it was */
-    __CPROVER_ensures(LOOKUP_NODE(atm) == NULL ==> CACHE_SAME);
+    __CPROVER_ensures(LOOKUP_NODE_(E_CHAIN, atm) == NULL ==> CACHE_SAME);
 
 /* --- release of an id ----------------------------------------------------------------------- */
 void *HAremove_atom(atom_t atm)
-    __CPROVER_requires(ATOMS_WF && CENTRED(atm) && CACHE_SNAP && CHAIN_SNAP)
-    __CPROVER_requires(g_u >= 0 && g_u < ATOM_CACHE_SIZE && g_gp != NULL && g_gp->atom_list != NULL && g_b < g_gp->hash_size)
+    __CPROVER_requires(GHOSTS_OK && WF_(E_CHAIN) && CENTRED(atm) && CACHE_SNAP && NODES_SNAP)
+    __CPROVER_requires(g_u >= 0 && g_u < ATOM_CACHE_SIZE)
     __CPROVER_requires(FREELIST_SAME && B2_SAME)
     __CPROVER_assigns(__CPROVER_object_whole(atom_id_cache), __CPROVER_object_whole(atom_obj_cache),
                       g_gp->atoms, g_gp->atom_list[g_b], g_n0->next, g_n1->next, g_n2->next, atom_free_list)
@@ -189,22 +201,24 @@ void *HAremove_atom(atom_t atm)
     /* stale / foreign / never issued id: nothing changed at all */
     __CPROVER_ensures(SPEC_K(atm) < 0 ==>
                       (CACHE_SAME && FREELIST_SAME && B2_SAME && g_gp->atoms == __CPROVER_old(g_gp->atoms) &&
-                       (!LIVE || CHAIN_IS(g_len, g_n0, g_n1, g_n2))))
-    /* registered id: exactly its node is unlinked, the others stay in order */
-    __CPROVER_ensures(SPEC_K(atm) == 0 ==> (CHAIN_IS(g_len - 1, g_n1, g_n2, g_n2) && atom_free_list == g_n0 && g_n0->next == g_fl))
-    __CPROVER_ensures(SPEC_K(atm) == 1 ==> (CHAIN_IS(g_len - 1, g_n0, g_n2, g_n2) && atom_free_list == g_n1 && g_n1->next == g_fl))
-    __CPROVER_ensures(SPEC_K(atm) == 2 ==> (CHAIN_IS(g_len - 1, g_n0, g_n1, g_n1) && atom_free_list == g_n2 && g_n2->next == g_fl))
+                       WF_(E_CHAIN)))
+    /* registered id: exactly its node is unlinked and put on the free list, the others stay in
+       order, the bucket/cache invariant holds for the shorter chain */
+    __CPROVER_ensures(SPEC_K(atm) == 0 ==> (ATOMS_WF(g_len - 1, g_n1, g_n2, g_n2) && atom_free_list == g_n0 && g_n0->next == g_fl))
+    __CPROVER_ensures(SPEC_K(atm) == 1 ==> (ATOMS_WF(g_len - 1, g_n0, g_n2, g_n2) && atom_free_list == g_n1 && g_n1->next == g_fl))
+    __CPROVER_ensures(SPEC_K(atm) == 2 ==> (ATOMS_WF(g_len - 1, g_n0, g_n1, g_n1) && atom_free_list == g_n2 && g_n2->next == g_fl))
     __CPROVER_ensures(SPEC_K(atm) >= 0 ==> (g_gp->atoms == __CPROVER_old(g_gp->atoms) - 1 && B2_SAME))
-    /* afterwards the id is dead: no cache slot holds it and the bucket does not contain it */
-    __CPROVER_ensures(NOT_CACHED(atm) && LOOKUP_NODE(atm) == NULL)
+    /* afterwards the id is dead: no cache slot holds it (the chain clauses above say its node is
+       unlinked, ids in a chain are distinct) */
+    __CPROVER_ensures(NOT_CACHED(atm))
+    __CPROVER_ensures(SPEC_K(atm) == 0 ==> LOOKUP_NODE(g_len - 1, g_n1, g_n2, g_n2, atm) == NULL)
+    __CPROVER_ensures(SPEC_K(atm) == 1 ==> LOOKUP_NODE(g_len - 1, g_n0, g_n2, g_n2, atm) == NULL)
+    __CPROVER_ensures(SPEC_K(atm) == 2 ==> LOOKUP_NODE(g_len - 1, g_n0, g_n1, g_n1, atm) == NULL)
     /* every other cache entry is untouched, the purged one is (-1,NULL) */
     __CPROVER_ensures(SNAP_ID(g_u) != atm ? (atom_id_cache[g_u] == SNAP_ID(g_u) && atom_obj_cache[g_u] == SNAP_OB(g_u))
-                                          : ((SPEC_K(atm) >= 0 || SNAP_ID(g_u) == -1) && atom_id_cache[g_u] == -1 && atom_obj_cache[g_u] == NULL))
-    /* the other registered ids of the bucket still resolve to their objects */
-    __CPROVER_ensures((SPEC_VALIDGRP(atm) && LIVE && g_len > 0 && g_id0 != atm) ==> LOOKUP(g_id0) == g_ob0)
-    __CPROVER_ensures((SPEC_VALIDGRP(atm) && LIVE && g_len > 1 && g_id1 != atm) ==> LOOKUP(g_id1) == g_ob1)
-    __CPROVER_ensures((SPEC_VALIDGRP(atm) && LIVE && g_len > 2 && g_id2 != atm) ==> LOOKUP(g_id2) == g_ob2)
-    __CPROVER_ensures(ATOMS_WF);
+                                          : (atom_id_cache[g_u] == -1 && atom_obj_cache[g_u] == NULL))
+    /* the surviving nodes keep id and object */
+    __CPROVER_ensures(NODES_SNAP);
 
 #ifdef H4V_NATIVE
 #include "h4v_native_wrap.h"
@@ -229,7 +243,9 @@ static atom_info_t  h_other_node;
 #ifdef H4V_CEX
 #define H4V_HS_CAP 64u /* counterexample mode / native replay: keep the table small */
 #else
+#ifndef H4V_HS_CAP
 #define H4V_HS_CAP IDX_LIMIT
+#endif
 #endif
 
 #define OTHER_GROUP(g)                                                                               \
@@ -266,6 +282,9 @@ mk_env(void)
     H4V_ND(uint32, gp_atoms);
     H4V_ND(uint32, gp_nextid);
     H4V_ASSUME(HS_OK(gp_hash_size) && gp_hash_size <= H4V_HS_CAP);
+#ifdef H4V_HS_FIXED
+    gp_hash_size = H4V_HS_FIXED;
+#endif
     g_gp->count     = gp_count;
     g_gp->hash_size = gp_hash_size;
     g_gp->atoms     = gp_atoms;
@@ -276,8 +295,8 @@ mk_env(void)
     for (uint32 i = 0; i < gp_hash_size; i++)
         g_gp->atom_list[i] = &h_other_node; /* unmodelled buckets: something not to be touched */
 #endif
-    H4V_ND(int, grp_present);
-    atom_group_list[g_grp] = grp_present ? g_gp : NULL;
+    H4V_HAVOC(int, g_present);
+    atom_group_list[g_grp] = g_present ? g_gp : NULL;
 
     /* modelled bucket */
     H4V_HAVOC(uint32, g_b);
